@@ -42,7 +42,9 @@ func VerifNewGtp5g(mux *nl.Mux, conn, psConn nl.Conner, familyID int, linkIndex 
 func (g *Gtp5g) VerifCheckVersion() error { return g.checkVersion() }
 
 // VerifNewFlowDesc exposes the flow-description encoder.
-func (g *Gtp5g) VerifNewFlowDesc(s string, swap bool) (nl.AttrList, error) { return g.newFlowDesc(s, swap) }
+func (g *Gtp5g) VerifNewFlowDesc(s string, swap bool) (nl.AttrList, error) {
+	return g.newFlowDesc(s, swap)
+}
 
 // VerifPsQueryURR is the query function the driver hands to the periodic server.
 func (g *Gtp5g) VerifPsQueryURR(m map[uint64][]uint32) (map[uint64][]report.USAReport, error) {
